@@ -104,7 +104,7 @@ def inserted_and_deleted(setup, work):
 
 
 def rekeyed_created(setup, work):
-    """final labels of the instances the transaction under test creates AND whose primary key
+    """labels of the instances the transaction under test creates AND whose primary key
     it changes (root cause of finding C35 instance-ends-detached...: _restore_snapshot puts the
     old key back on an instance it has just expunged to transient)"""
     created, out = set(), set()
@@ -114,8 +114,7 @@ def rekeyed_created(setup, work):
         elif m[0] == "rename":
             for st in (created, out):
                 if m[1] in st:
-                    st.discard(m[1])
-                    st.add(m[2])
+                    st.add(m[2])  # every name the instance carries (the failure may come before the rename)
         elif m[0] == "setkey" and m[1] in created:
             out.add(m[1])
     return out
@@ -245,6 +244,8 @@ def corpus(ctx):
         ctx.case(("corpus", c["work"], c["fault"]))
         if bad:
             key = "c32-A:" + bad[0][0] + cause_suffix(c["setup"], c["work"], o)
+            if c.get("raw"):
+                key = e["key"]  # a replay without the application discipline stands for its own finding
             ctx.count("oracle:" + key)
             ctx.violation(key, c, "; ".join("%s: %s" % b for b in bad)[:900])
 
